@@ -46,3 +46,13 @@ package objfile
 //gvc:  opt frame args
 //gvc:  ensures own: calls("NewHasher") == 1
 //gvc:end
+
+// The id of the object a Writer has been fed (the digest of header and
+// content under the Writer's object format) is the ghost #oid; Hash returns it
+// (trusted: one line, hasher.Sum()).
+//gvc:ghost Writer.oid int
+
+//gvc:func (*Writer).Hash
+//gvc:  trusted
+//gvc:  ensures id: keyid(result) == w.#oid
+//gvc:end
